@@ -133,6 +133,21 @@ type mEmbeddedTagged struct {
 	mInner `avp:"V-Grouped"`
 	X      uint64 `avp:"V-Unsigned64"`
 }
+// a group of the BASE dictionary whose rule marks members as required: omitempty is the caller's word, not the rule's
+type mBaseVSA struct {
+	V struct {
+		Vid  uint32 `avp:"Vendor-Id"`
+		Auth uint32 `avp:"Auth-Application-Id,omitempty"`
+		Acct uint32 `avp:"Acct-Application-Id,omitempty"`
+	} `avp:"Vendor-Specific-Application-Id"`
+}
+
+// fields of a datatype type other than (but convertible to) the type the dictionary gives the AVP
+type mDatatypeConv struct {
+	A datatype.Unsigned32  `avp:"V-Unsigned64"`
+	B datatype.Integer32   `avp:"V-Integer64"`
+	S datatype.OctetString `avp:"V-UTF8String"`
+}
 type mAVPs struct {
 	A  diam.AVP    `avp:"V-Unsigned32"`
 	P  *diam.AVP   `avp:"V-UTF8String"`
@@ -163,6 +178,8 @@ var mTypes = []mType{
 	{"EmbeddedLate", func() interface{} { return &mEmbeddedLate{} }},
 	{"BaseGroup", func() interface{} { return &mBaseGroup{} }},
 	{"EmbeddedTagged", func() interface{} { return &mEmbeddedTagged{} }},
+	{"BaseVSA", func() interface{} { return &mBaseVSA{} }},
+	{"DatatypeConv", func() interface{} { return &mDatatypeConv{} }},
 }
 
 // ---- building values from a choice vector
@@ -199,14 +216,28 @@ var (
 	tIPv6   = reflect.TypeOf(datatype.IPv6{})
 )
 
+// mShift: the run in progress uses the verification dictionary whose codes are shifted (same names, other codes):
+// whatever a name resolved to under the other dictionary must not be remembered
+var mShift uint32
+
 func defByName(name string) (abs.Def, bool) {
 	for _, d := range abs.VDefs() {
 		if d.Name == name {
+			d.Code += mShift
 			return d, true
 		}
 	}
-	if name == "Failed-AVP" { // base dictionary
+	switch name { // base dictionary
+	case "Failed-AVP":
 		return abs.Def{App: 0, Code: 279, Vendor: 0, Name: name, Kind: "grouped", Must: "M"}, true
+	case "Vendor-Specific-Application-Id":
+		return abs.Def{App: 0, Code: 260, Vendor: 0, Name: name, Kind: "grouped", Must: "M"}, true
+	case "Vendor-Id":
+		return abs.Def{App: 0, Code: 266, Vendor: 0, Name: name, Kind: "u32", Must: "M"}, true
+	case "Auth-Application-Id":
+		return abs.Def{App: 0, Code: 258, Vendor: 0, Name: name, Kind: "u32", Must: "M"}, true
+	case "Acct-Application-Id":
+		return abs.Def{App: 0, Code: 259, Vendor: 0, Name: name, Kind: "u32", Must: "M"}, true
 	}
 	return abs.Def{}, false
 }
@@ -234,10 +265,10 @@ func mkAVP(d abs.Def, class int) *diam.AVP {
 	case "grouped":
 		g := &diam.GroupedAVP{}
 		if class > 0 {
-			g.AddAVP(diam.NewAVP(9001, 0x40, 0, datatype.Unsigned32(5)))
+			g.AddAVP(diam.NewAVP(9001+mShift, 0x40, 0, datatype.Unsigned32(5)))
 		}
 		if class > 1 {
-			g.AddAVP(diam.NewAVP(9011, 0, 0, datatype.UTF8String("in")))
+			g.AddAVP(diam.NewAVP(9011+mShift, 0, 0, datatype.UTF8String("in")))
 		}
 		data = g
 	}
@@ -628,6 +659,10 @@ func Marshal(a Args) error {
 		}
 		return nil
 	}
+	vp2, err := abs.NewVParserShift(a.Repo, 300)
+	if err != nil {
+		return err
+	}
 	id := 0
 	if a.Cases != "" {
 		err = ReadLines(a.Cases, func(line []byte) error {
@@ -636,6 +671,13 @@ func Marshal(a Args) error {
 				return err
 			}
 			id++
+			if id%4 == 1 {
+				// the same names under the other verification dictionary (other codes), in the same process
+				mShift = 300
+				out.Emit(runMarshal(id, &c, &chooser{vec: c.Vec}, vp2))
+				mShift = 0
+				id++
+			}
 			out.Emit(runMarshal(id, &c, &chooser{vec: c.Vec}, vp))
 			if id%3 == 0 {
 				id++
